@@ -116,6 +116,9 @@ def run_scenario(work, vh, prop, sc, tier, seed, focus):
     v = vlib.validate(work, sc["name"], tf, sc.get("focus", focus))
     log("scenario %s: %d programs, %d events on %s, %d failing traces (gen %.1fs, exec %.1fs, tlc %.1fs)" % (
         sc["name"], len(programs), events, ",".join(sc["stores"]), len(v["fails"]), gen["wall"], dt, v["tlc"]["wall"]))
+    if v.get("drift"):
+        print("DRIFT property=%s: scenario %s, %d collections of the directory store kept other blobs than spec/GCImpl.tla predicts (e.g. trace %s event %d): the model needs to follow the code; not a violation" % (
+            prop, sc["name"], len(v["drift"]), v["drift"][0]["trace"], v["drift"][0]["i"]))
     try:
         os.remove(tf)
     except OSError:
@@ -657,9 +660,32 @@ def gc_order_programs(seed):
     return progs
 
 
+GCIMPL_CFG = "SPECIFICATION MCSpec\nINVARIANT Safe\nINVARIANT Exact\nINVARIANT Listed\nCHECK_DEADLOCK FALSE\n"
+
+
+def gcimpl_extras(work, prop, tier, seed):
+    """The collector as written (spec/GCImpl.tla) against the policy of Registry on every shape of a small universe
+    (spec/MCGCImpl.tla); without the second scan of the responses TLC must find a referrer that stays unlisted."""
+    vh = vlib.build_harness(work)
+    notes = []
+    unis = [["m1", "m2", "x1", "a1", "a4"]] if tier == "quick" else [["m1", "m2", "x1", "a1", "a4", "a12"], ["m1", "x4", "x2", "a1", "a3"]]
+    for k, contents in enumerate(unis):
+        cat = vlib.catalogue(work, vh, "gcimpl%d" % k, contents, ["sha256"], 1, cfg=sc_cfg({}), ntags=1, nrepos=1)
+        res = vlib.tlc(work, "gcimpl%d" % k, "MCGCImpl", GCIMPL_CFG, files={cat: "cat.json"}, workers=vlib.WORKERS, timeout=3000, java_opts="-Xss64m")
+        vlib.tlc_ok(res, "MCGCImpl " + ",".join(contents))
+        notes.append("GCImpl on every shape over %s (one repository, one tag, 16 policies): %d shapes, Safe (MustBlobs / MustAddr kept), Exact (nothing outside MayBlobs kept once nothing is recent), "
+                     "Listed (a referrer that stays is listed) hold, %.0fs" % (",".join(contents), res["distinct"], res["wall"]))
+    cat = vlib.catalogue(work, vh, "gcimplS", ["m1", "a1", "a4", "a12"], ["sha256"], 1, cfg=sc_cfg({}), ntags=1, nrepos=1)
+    res = vlib.tlc(work, "gcimplS", "MCGCImpl", GCIMPL_CFG + "CONSTANT Rescan <- NoRescan\n", files={cat: "cat.json"}, workers=4, timeout=1500, java_opts="-Xss64m")
+    if "Invariant Listed is violated" not in res["out"]:
+        raise Inconclusive("GCImpl without the second scan of the responses is no longer rejected: the model lost its teeth\n" + res["out"][-1500:])
+    notes.append("GCImpl with Rescan <- FALSE: TLC reports a referrer that stays but is no longer listed (sanity of Listed)")
+    return {"violations": [], "events": 0, "traces": 0, "note": "; ".join(notes) + "; the collections of the directory store in the histories above are compared with GCImpl (clause gc.impl, reported as DRIFT)"}
+
+
 def c05(prop, tier, seed, work):
     return histories(prop, tier, seed, work, gc_scenarios(tier, STORES3), "", "a history is non-trivial if it runs at least one collection after at least one manifest push; distinct = distinct operation sequences; all 16 combinations of Untagged/ReferrersDangling/ReferrersWithSubj/GracePeriod",
-                     {"GC"})
+                     {"GC"}, extras=[gcimpl_extras])
 
 
 def c06(prop, tier, seed, work):
@@ -677,7 +703,7 @@ def c06(prop, tier, seed, work):
                         # (the directory store itself runs with a policy under which the collection of its Close removes nothing)
                         cfg={"untagged": False, "dangling": False, "withSubj": False, "grace": True, "emptyRepo": False}))
     return histories(prop, tier, seed, work, scs, "", "a history is non-trivial if it runs at least one collection after at least one manifest push; distinct = distinct operation sequences",
-                     {"GC", "GCPass"}, extras=[c06_convert])
+                     {"GC", "GCPass"}, extras=[c06_convert, gcimpl_extras])
 
 
 def c06_convert(work, prop, tier, seed):
